@@ -80,7 +80,8 @@ class Rec14:
         return True
 
     def seed(self):
-        return self.rng.choice([1, 0xBEEF, 0xFFFE, 0, 0xFFFF, self.rng.randrange(0x10000)])
+        # 0xd03 / 0x7b76: the seeds whose key (pyexec14.KEYFN) is 0xFFFF / 0x0000
+        return self.rng.choice([1, 0xBEEF, 0xFFFE, 0, 0xFFFF, 0xd03, 0x7b76, self.rng.randrange(0x10000)])
 
     def hostile(self, j):
         rng = self.rng
